@@ -196,15 +196,20 @@ def run_job(job) -> Dict[str, Any]:
     if kind == 'abort' and fault:
         # what the offender put on the wire must not have been passed on
         off = next((c for c in res['conns'] if c['seat'] == fault['seat']), None)
-        sent = [t for (_, t) in off['c2s']] if off else []
+        sent = list(off['c2s']) if off else []
         legit = {w['sent'] for w in (off['wire'] if off else [])}
-        offence = [t for t in sent if ('plays' in t.lower() or 'bids' in t.lower() or 'passes' in t.lower()
-                                       or 'doubles' in t.lower() or 'frobnicates' in t.lower())
-                   and t not in legit]
+        offence = [(q_, t) for (q_, t) in sent
+                   if ('plays' in t.lower() or 'bids' in t.lower() or 'passes' in t.lower()
+                       or 'doubles' in t.lower() or 'frobnicates' in t.lower()) and t not in legit]
         # only for offences whose text cannot also be a legitimate message of
-        # the session (garbage, a card neither the seat nor its partner holds)
-        e['offence'] = offence[-1] if offence and fault['kind'] in ('garbage', 'not-held') else ''
-        e['s2c_all'] = [[t for (_, t) in c['s2c']] for c in res['conns'] if c['seat'] != fault['seat']]
+        # the board (garbage, a card neither the seat nor its partner holds), and
+        # only what the other seats were sent AFTER the offence (the same text may
+        # have been a legitimate play of an earlier board)
+        ok_kind = bool(offence) and fault['kind'] in ('garbage', 'not-held')
+        e['offence'] = offence[-1][1] if ok_kind else ''
+        after = offence[-1][0] if ok_kind else 0
+        e['s2c_all'] = [[t for (q_, t) in c['s2c'] if q_ > after]
+                        for c in res['conns'] if c['seat'] != fault['seat']]
     if res.get('second') is not None:
         e2 = session_event(tid + 'B', cfg['second'], res['second'], kind, completed)
         e['second_event'] = e2
@@ -494,6 +499,10 @@ def abort_jobs(r, n: int, prefix: str) -> List[tuple]:
             # 2 barriers + calls + 13 sleeps + 52 gets; any point after seating
             cfg['interrupt_board'] = k
             cfg['interrupt_frac'] = r.random()
+            if q % 12 == 4:
+                # the operator runs the command line: main() with a board file
+                cfg['via_main'] = {'format': 'json', 'restart': 0}
+                cfg['boards'] = [(dl_, d_, v_, i_ or 'b', dda_) for (dl_, d_, v_, i_, dda_) in boards]
         else:
             seat = r.randrange(4)
             if kind in ('illegal-call', 'garbage', 'wrong-name') and q % 2 == 0:
@@ -553,6 +562,8 @@ def admission_jobs(r, n: int, prefix: str) -> List[tuple]:
                     p = next(p for p in seated if ((p + 2) % 4) not in seated)
                     s = (p + 2) % 4
                     team = seated[p] + r.choice(['x', ' ', '2'])
+                    if seated[p].swapcase() != seated[p] and r.random() < 0.4:
+                        team = seated[p].swapcase()          # differs in letter case only
                     ver = 18
                 else:
                     ver = r.choice([17, 19, 1, 180])
